@@ -456,8 +456,11 @@ class StrategyBase(Node):
         """
         TimeSeries of unallocated capital.
         """
-        # no stale check needed
-        return self._cash
+        # the cash row is written by update, so refresh first like the
+        # other series, and do not expose rows beyond the current date
+        if self.root.stale:
+            self.root.update(self.now, None)
+        return self._cash.loc[: self.now]
 
     @property
     def fees(self):
